@@ -102,6 +102,8 @@ pub enum Src {
   /// (delay from now in ms: negative = in the past, period ms)
   IntervalAt(i64, u64),
   Timer(V, u64),
+  /// as Timer, delay in microseconds
+  TimerUs(V, u64),
   TimerAt(V, i64),
   Future(u32, Scripted),
   FutureRes(u32, Scripted),
@@ -346,7 +348,7 @@ impl Src {
       Src::Defer(_) => "defer",
       Src::Interval(_) => "interval",
       Src::IntervalAt(..) => "interval_at",
-      Src::Timer(..) => "timer",
+      Src::Timer(..) | Src::TimerUs(..) => "timer",
       Src::TimerAt(..) => "timer_at",
       Src::Future(..) => "from_future",
       Src::FutureRes(..) => "from_future_result",
